@@ -112,6 +112,31 @@ def run(res, tier):
                                  'is not that of a fresh fit (increases / carries entries of the earlier fit)',
                             achieved_radius=sr, log=list(map(float, reg.objective_log_)), log_fresh=list(map(float, fresh.objective_log_)),
                             estimator=repr(reg), X=X.tolist()))
+    # another estimator object fitted earlier with loosened solver tolerances must not change what a later estimator
+    # with default settings is solved with (solver_params_ and result as in a process where the loose fit never ran)
+    loose = dict(lmi.SOLVER, abs_prim_fsb_tol=1e-3, rel_prim_fsb_tol=1e-3, abs_dual_fsb_tol=1e-3, rel_dual_fsb_tol=1e-3,
+                 abs_ipm_opt_tol=1e-3, rel_ipm_opt_tol=1e-3)
+    for h in range(2 if tier == 'quick' else 10):
+        cls = [L.LmiEdmdSpectralRadiusConstr, L.LmiDmdcSpectralRadiusConstr][h % 2]
+        X, _, _ = lmi.linear_data(rng, 2, 1, kind='unstable')
+        try:
+            ref = cls(spectral_radius=0.5, max_iter=3, solver_params=lmi.SOLVER).fit(X, n_inputs=1, episode_feature=True)
+            cls(spectral_radius=0.5, max_iter=3, solver_params=loose).fit(X, n_inputs=1, episode_feature=True)
+            later = cls(spectral_radius=0.5, max_iter=3, solver_params=lmi.SOLVER).fit(X, n_inputs=1, episode_feature=True)
+        except Exception:  # noqa
+            dist['fit_error'] = dist.get('fit_error', 0) + 1
+            continue
+        dist['after_loose_fit_of_another_object'] = dist.get('after_loose_fit_of_another_object', 0) + 1
+        want = dict(lmi.PRISTINE_SOLVER_DEFAULTS, **lmi.SOLVER)
+        A, _ = lmi.ab(later, 2)
+        sr = float(np.max(np.abs(np.linalg.eigvals(A))))
+        if later.solver_params_ != want or sr > 0.5 * (1 + TOL) + TOL \
+                or float(np.max(np.abs(later.coef_ - ref.coef_))) > 1e-4 * max(1.0, float(np.max(np.abs(ref.coef_)))):
+            bad.append(dict(what='a fit with default solver settings is influenced by the solver settings of ANOTHER estimator '
+                                 'object fitted earlier in the process (the requested bound is then only met to the other '
+                                 'object\'s tolerance)', solver_params_used={k: v for k, v in later.solver_params_.items() if want.get(k) != v},
+                            achieved_radius=sr, coef_difference=float(np.max(np.abs(later.coef_ - ref.coef_))),
+                            estimator=repr(later), X=X.tolist()))
     ev = sum(v for k, v in dist.items() if k != 'fit_error')
     res.coverage.update(
         programs=ev, disagreements_checked=ev, evaluations=ev, distinct_nontrivial=ev,
